@@ -21,6 +21,7 @@ const (
 	kStart     uint8 = 100 + iota // a client goroutine is about to begin
 	kWaitGroup                    // Synchronized.Wait: enabled when the counter is 0
 	kJoin                         // wait until a set of client goroutines has ended
+	kGroupAdd                     // Synchronized.Add (always enabled)
 )
 
 func kindName(k uint8) string {
@@ -43,6 +44,8 @@ func kindName(k uint8) string {
 		return "Wait"
 	case kJoin:
 		return "Join"
+	case kGroupAdd:
+		return "GroupAdd"
 	}
 	return "?" + strconv.Itoa(int(k))
 }
@@ -89,7 +92,14 @@ type Sched struct {
 	// the role-sorted enabled set); afterwards index 0 is taken.  Choices
 	// records, for every decision, how many goroutines were enabled and which
 	// index was taken - the basis of the exhaustive depth-first exploration.
-	notClosed  string
+	notClosed      string
+	tokenSrv       chan tokenReq
+	tokenBroken    bool
+	tokenClosed    bool
+	tokenMu        sync.Mutex
+	hookInsideLock bool
+	// WaitEarly: the harness group's Wait returned before all helpers ended
+	WaitEarly  string
 	Forced     []int
 	Systematic bool
 	Choices    [][2]int
@@ -142,11 +152,58 @@ func NewSched(rng *core.Rng) *Sched {
 
 // Deactivate detaches the scheduler from the hook.
 func (s *Sched) Deactivate() {
+	s.tokenMu.Lock()
+	if s.tokenSrv != nil && !s.tokenBroken && !s.tokenClosed {
+		close(s.tokenSrv)
+	}
+	s.tokenClosed = true
+	s.tokenMu.Unlock()
 	activeMu.Lock()
 	if active == s {
 		active = nil
 	}
 	activeMu.Unlock()
+}
+
+type tokenReq struct {
+	q     tokenQueue
+	reply chan chan bool
+}
+
+// tokens reads the queue's current token channel through a server goroutine
+// with a watchdog: VerifTokens takes the queue's mutex, and if some goroutine is
+// parked at a hook INSIDE a critical section (which the hook discipline
+// forbids) the call would block for ever and wedge the whole worker.  On a
+// timeout the schedule is marked stuck (inconclusive) instead.  Must be called
+// WITHOUT s.mu held.
+func (s *Sched) tokens(q tokenQueue) chan bool {
+	s.tokenMu.Lock()
+	defer s.tokenMu.Unlock()
+	if s.tokenBroken || s.tokenClosed {
+		return nil
+	}
+	if s.tokenSrv == nil {
+		s.tokenSrv = make(chan tokenReq)
+		go func(in chan tokenReq) {
+			for r := range in {
+				r.reply <- r.q.VerifTokens()
+			}
+		}(s.tokenSrv)
+	}
+	reply := make(chan chan bool, 1)
+	s.tokenSrv <- tokenReq{q, reply}
+	select {
+	case ch := <-reply:
+		return ch
+	case <-time.After(2 * time.Second):
+		s.tokenBroken = true
+		s.mu.Lock()
+		s.stuck = true
+		s.hookInsideLock = true
+		s.cond.Broadcast()
+		s.mu.Unlock()
+		return nil
+	}
 }
 
 // Tick is the logical clock for the recorder (only one goroutine runs at a time).
@@ -164,7 +221,7 @@ func (s *Sched) park(g *gstate, kind uint8, q tokenQueue) {
 	g.kind, g.q, g.bound = kind, q, nil
 	if q != nil && (kind == col.VerifSend || kind == col.VerifRecv) {
 		s.mu.Unlock()
-		ch := q.VerifTokens() // under the queue's own mutex; nobody parked holds it
+		ch := s.tokens(q) // under the queue's own mutex; nobody parked holds it
 		s.mu.Lock()
 		ready := false
 		if kind == col.VerifSend {
@@ -265,10 +322,30 @@ type Group struct {
 
 func (s *Sched) NewGroup() *Group { return &Group{s: s} }
 
+// Add is itself a scheduling point (always enabled): a helper that registers
+// with the group only after it has been started can then be overtaken by the
+// caller's Wait.
 func (g *Group) Add(delta int) {
-	g.s.mu.Lock()
+	s := g.s
+	id := goid()
+	s.mu.Lock()
+	st := s.gs[id]
+	if st == nil && s.pending > 0 {
+		s.pending--
+		s.helpers++
+		st = &gstate{id: id, role: fmt.Sprintf("helper%d", s.helpers)}
+		s.gs[id] = st
+		s.byRole[st.role] = st
+	}
+	if st == nil || st.ended {
+		g.n += delta
+		s.mu.Unlock()
+		return
+	}
+	s.park(st, kGroupAdd, nil) // unlocks; returns when released
+	s.mu.Lock()
 	g.n += delta
-	g.s.mu.Unlock()
+	s.mu.Unlock()
 }
 
 func (g *Group) Done() {
@@ -299,6 +376,18 @@ func (g *Group) Wait() {
 	}
 	st.group = g
 	s.park(st, kWaitGroup, nil)
+	// Wait has returned: every helper goroutine spawned so far must have finished
+	s.mu.Lock()
+	unfinished := s.pending
+	for _, o := range s.gs {
+		if strings.HasPrefix(o.role, "helper") && !o.ended {
+			unfinished++
+		}
+	}
+	if unfinished > 0 && s.WaitEarly == "" {
+		s.WaitEarly = fmt.Sprintf("the caller's Wait() returned while %d helper goroutine(s) started earlier had not finished (group counter %d)", unfinished, g.n)
+	}
+	s.mu.Unlock()
 }
 
 func (g *Group) Count() int {
@@ -313,7 +402,7 @@ func (s *Sched) enabled(g *gstate) bool {
 		ch := g.bound
 		if ch == nil {
 			s.mu.Unlock()
-			ch = g.q.VerifTokens()
+			ch = s.tokens(g.q)
 			s.mu.Lock()
 		}
 		if g.kind == col.VerifSend {
@@ -373,14 +462,14 @@ func (s *Sched) Run(expected int) {
 	}()
 	for {
 		deadline := time.Now().Add(3 * time.Second)
-		for s.running > 0 && s.aborted == "" {
+		for s.running > 0 && s.aborted == "" && !s.stuck {
 			if time.Now().After(deadline) {
 				s.stuck = true
 				return
 			}
 			s.cond.Wait()
 		}
-		if s.aborted != "" {
+		if s.aborted != "" || s.stuck {
 			return
 		}
 		// everyone is parked or has ended
@@ -410,7 +499,7 @@ func (s *Sched) Run(expected int) {
 			g := s.byRole[r]
 			if g.parked && g.bound != nil {
 				s.mu.Unlock()
-				cur := g.q.VerifTokens()
+				cur := s.tokens(g.q)
 				s.mu.Lock()
 				if cur != g.bound && s.enabled(g) {
 					s.unrepresentable = true
@@ -425,7 +514,7 @@ func (s *Sched) Run(expected int) {
 				what := kindName(g.kind)
 				if g.bound != nil {
 					s.mu.Unlock()
-					cur := g.q.VerifTokens()
+					cur := s.tokens(g.q)
 					s.mu.Lock()
 					if cur == g.bound {
 						what += "(committed)"
@@ -474,7 +563,7 @@ func (s *Sched) Run(expected int) {
 		switch pick.kind {
 		case col.VerifLockClose:
 			s.mu.Unlock()
-			ch := pick.q.VerifTokens()
+			ch := s.tokens(pick.q)
 			s.mu.Lock()
 			s.closed[ch] = true
 			for _, g := range s.gs {
